@@ -410,6 +410,12 @@ func edgeOps() []op {
 		{"send2 a->world", 0, func() gen.Stmt { return sendN(U, "2", sa("a"), da("world")) }},
 		{"send4 {a b}->{1/2 world, 1/2 x}", 0, func() gen.Stmt { return sendN(U, "4", lst(sa("a"), sa("b")), half("world", "x")) }},
 		{"send3 {a world}->x", 0, func() gen.Stmt { return sendN(U, "3", lst(sa("a"), sa("world")), da("x")) }},
+		{"send6 {max1 a, max1 a, a, world}->x", 0, func() gen.Stmt {
+			c1 := func() gen.Source { return &gen.SrcCapped{Cap: gen.Mon(U, "1"), From: sa("a")} }
+			return sendN(U, "6", lst(c1(), c1(), sa("a"), sa("world")), da("x"))
+		}},
+		{"sendEUR2 a->x", 0, func() gen.Stmt { return sendN("EUR", "2", sa("a"), da("x")) }},
+		{"sendEUR2 {a world}->x", 0, func() gen.Stmt { return sendN("EUR", "2", lst(sa("a"), sa("world")), da("x")) }},
 		{"save3 a", 0, func() gen.Stmt { return saveN(U, "3", "a") }},
 		{"save2 world", 0, func() gen.Stmt { return saveN(U, "2", "world") }},
 		// feeders
@@ -425,7 +431,7 @@ func edgeOps() []op {
 // b in {0,2}, world:fees in {0,6}.
 func runEdgeSeqSpace(w *mc.Worker, name string, minLen, maxLen int, body func(c *seqCase, bal env.Bal)) {
 	ops := edgeOps()
-	w.Stage(name, fmt.Sprintf("all sequences of %d..%d statements out of %d about edge relations (overdraft bound 0 / negative, an account paying itself, sources after a capped @world, an account named world:fees, saving exactly the balance, postings INTO @world) x sheets a in {0,3,5,-2}, b in {0,2}, world:fees in {0,6}", minLen, maxLen, len(ops)), func() {
+	w.Stage(name, fmt.Sprintf("all sequences of %d..%d statements out of %d about edge relations (overdraft bound 0 / negative, an account paying itself, sources after a capped @world, an account named world:fees, saving exactly the balance, postings INTO @world, an account named three times in one source, a second asset of the same account) x sheets a in {0,3,5,-2}, a/EUR in {0,3}, b in {0,2}, world:fees in {0,6}", minLen, maxLen, len(ops)), func() {
 		w.Outer(name+"/seq", 0, func(o *mc.Explorer) {
 			n := minLen + o.Choose(maxLen-minLen+1)
 			c := &seqCase{Prog: &gen.Program{}}
@@ -445,9 +451,9 @@ func runEdgeSeqSpace(w *mc.Worker, name string, minLen, maxLen int, body func(c 
 				return
 			}
 			c.PR = pr
-			as, bs, fs := bigs(0, 3, 5, -2), bigs(0, 2), bigs(0, 6)
+			as, bs, fs, es := bigs(0, 3, 5, -2), bigs(0, 2), bigs(0, 6), bigs(0, 3)
 			w.Inner(0, func(in *mc.Explorer) {
-				bal := env.Bal{"a": {"USD": as[in.Choose(len(as))]}, "b": {"USD": bs[in.Choose(len(bs))]}, "world:fees": {"USD": fs[in.Choose(len(fs))]}}
+				bal := env.Bal{"a": {"USD": as[in.Choose(len(as))], "EUR": es[in.Choose(len(es))]}, "b": {"USD": bs[in.Choose(len(bs))]}, "world:fees": {"USD": fs[in.Choose(len(fs))]}}
 				body(c, bal)
 			})
 		})
